@@ -2,6 +2,7 @@ import LoguruModel.Datetime.Spec
 import LoguruModel.Datetime.RenderLemmas
 import LoguruModel.Datetime.CacheLemmas
 import LoguruModel.Datetime.UtcLemmas
+import LoguruModel.Datetime.ScanLemmas
 /-
 C11 – property theorems (only the theorems and their non-vacuity examples live here).
 Every statement is about the *generated* kernels `Datetime.Gen.k_*` / `Datetime.Gen.table`,
@@ -305,6 +306,146 @@ theorem utc_conversion_same_instant (t t' : Tm) (dt : Dt) :
   · rw [(token_Z_is_formatTimezone t (toUtc dt)).1, hz]; rfl
   · rw [(token_Z_is_formatTimezone t (toUtc dt)).2, hz]; rfl
 
+/-! ### Round 5: what the scanner's matches are -/
+
+theorem altLens_text (a : Alt) (s : List Char) (k : Nat) (hk : k ∈ altLens a s)
+    (h6 : ∀ c mn, a = .rep c mn none → k ≤ 6) : s.take k ∈ altTexts a := by
+  cases a with
+  | lit l =>
+    simp only [altLens] at hk
+    split at hk
+    · rename_i hp
+      simp only [List.mem_singleton] at hk
+      subst hk
+      rw [List.isPrefixOf_iff_prefix] at hp
+      obtain ⟨t, rfl⟩ := hp
+      simp [altTexts]
+    · simp at hk
+  | rep c mn mx =>
+    simp only [altLens, List.mem_filter, List.mem_map, List.mem_range, decide_eq_true_eq] at hk
+    obtain ⟨⟨i, hi, hki⟩, hpos⟩ := hk
+    cases mx with
+    | some m =>
+      simp only at hi hki
+      have hrun : k ≤ (s.takeWhile (· == c)).length := by omega
+      rw [take_of_takeWhile c s k hrun]
+      simp only [altTexts, List.mem_map, List.mem_range]
+      exact ⟨k - mn, by omega, by congr 1; omega⟩
+    | none =>
+      simp only at hi hki
+      have hrun : k ≤ (s.takeWhile (· == c)).length := by omega
+      have := h6 c mn rfl
+      rw [take_of_takeWhile c s k hrun]
+      simp only [altTexts, List.mem_map, List.mem_range]
+      exact ⟨k - mn, by omega, by congr 1; omega⟩
+
+/-- where the `.tok` pieces of a scan come from: the token branch of the pattern matched exactly that text at its
+position, or it is a bracket match `[` … `]` -/
+theorem scanAux_tok (fuel : Nat) (s acc : List Char) (h : s.length ≤ fuel) (t : Str)
+    (ht : Piece.tok t ∈ scanAux fuel s acc) :
+    (∃ pre rest k, s = pre ++ t ++ rest ∧ matchToken tokenAlts (t ++ rest) = some k ∧ t = (t ++ rest).take k) ∨
+    (∃ inner, t = '[' :: inner ++ [']']) := by
+  induction fuel generalizing s acc with
+  | zero =>
+    have : s = [] := List.length_eq_zero_iff.mp (by omega)
+    subst this
+    unfold scanAux at ht
+    exact absurd ht (flush_no_tok acc t)
+  | succ n ih =>
+    cases s with
+    | nil => unfold scanAux at ht; exact absurd ht (flush_no_tok acc t)
+    | cons c cs =>
+      unfold scanAux at ht
+      simp only at ht
+      split at ht
+      · rename_i k hk
+        have hpos : 1 ≤ k := matchToken_pos _ tokenAlts_ok _ _ hk
+        rcases List.mem_append.mp ht with h1 | h1
+        · rcases List.mem_append.mp h1 with h2 | h2
+          · exact absurd h2 (flush_no_tok acc t)
+          · simp only [List.mem_singleton, Piece.tok.injEq] at h2
+            left
+            refine ⟨[], (c :: cs).drop k, k, ?_, ?_, ?_⟩
+            · rw [h2]; simp
+            · rw [h2, List.take_append_drop]; exact hk
+            · rw [h2, List.take_append_drop]
+        · have hlen : ((c :: cs).drop k).length ≤ n := by simp at h ⊢; omega
+          rcases ih _ [] hlen h1 with ⟨pre, rest, k', e1, e2, e3⟩ | hb
+          · left
+            refine ⟨(c :: cs).take k ++ pre, rest, k', ?_, e2, e3⟩
+            rw [List.append_assoc, List.append_assoc, ← List.append_assoc pre, ← e1, List.take_append_drop]
+          · right; exact hb
+      · split at ht
+        · split at ht
+          · rename_i hc _ k hk
+            have hc' : c = '[' := by simpa using hc
+            rcases List.mem_append.mp ht with h1 | h1
+            · rcases List.mem_append.mp h1 with h2 | h2
+              · exact absurd h2 (flush_no_tok acc t)
+              · simp only [List.mem_singleton, Piece.tok.injEq] at h2
+                right
+                have hb := matchBracketInner_some _ _ _ hk
+                refine ⟨cs.take k, ?_⟩
+                rw [h2, hc']
+                simp only [List.take_succ_cons]
+                rw [List.take_add_one]
+                rw [List.head?_drop] at hb
+                simp [hb]
+            · have hlen : ((c :: cs).drop (k + 2)).length ≤ n := by simp at h ⊢; omega
+              rcases ih _ [] hlen h1 with ⟨pre, rest, k', e1, e2, e3⟩ | hb
+              · left
+                refine ⟨(c :: cs).take (k + 2) ++ pre, rest, k', ?_, e2, e3⟩
+                rw [List.append_assoc, List.append_assoc, ← List.append_assoc pre, ← e1, List.take_append_drop]
+              · right; exact hb
+          · have hlen : cs.length ≤ n := by simp at h; omega
+            rcases ih cs (c :: acc) hlen ht with ⟨pre, rest, k', e1, e2, e3⟩ | hb
+            · left; exact ⟨c :: pre, rest, k', by rw [e1]; simp, e2, e3⟩
+            · right; exact hb
+        · have hlen : cs.length ≤ n := by simp at h; omega
+          rcases ih cs (c :: acc) hlen ht with ⟨pre, rest, k', e1, e2, e3⟩ | hb
+          · left; exact ⟨c :: pre, rest, k', by rw [e1]; simp, e2, e3⟩
+          · right; exact hb
+
+theorem only_S_is_unbounded : ∀ a ∈ tokenAlts, ∀ c mn, a = Alt.rep c mn none → c = 'S' := by
+  have h : tokenAlts.all unboundedOnlyS = true := by decide
+  intro a ha c mn hac
+  have := List.all_eq_true.mp h a ha
+  subst hac
+  simpa [unboundedOnlyS] using this
+
+/-- every match of the pattern in a spec without seven consecutive `S` is a key of the token table or a bracket match:
+the `except KeyError` branch of `_compile_format` (`token[1:-1]`) only ever sees `[` … `]` – no token text can fall through
+it and silently lose its first and last character -/
+theorem scan_tok_shape (spec : Str) (h7 : isInfix tooManyS spec = false) (t : Str)
+    (ht : Piece.tok t ∈ scan spec) :
+    (lookup t table).isSome = true ∨ ∃ inner, t = '[' :: inner ++ [']'] := by
+  rcases scanAux_tok spec.length spec [] (Nat.le_refl _) t ht with ⟨pre, rest, k, e1, e2, e3⟩ | hb
+  · left
+    obtain ⟨a, ha, hka⟩ := matchToken_some _ _ _ e2
+    have h6 : ∀ c mn, a = .rep c mn none → k ≤ 6 := by
+      intro c mn hac
+      subst hac
+      have hc := only_S_is_unbounded _ ha c mn rfl
+      subst hc
+      have hrep := altLens_rep_take 'S' mn none _ k hka
+      rw [← e3] at hrep
+      by_cases hk : k ≤ 6
+      · exact hk
+      · exfalso
+        have h7' : tooManyS = List.replicate 7 'S' := by decide
+        have hsplit : t = tooManyS ++ List.replicate (k - 7) 'S' := by
+          rw [hrep, h7', List.replicate_append_replicate]; congr 1; omega
+        have : isInfix tooManyS spec = true := by
+          have e : spec = pre ++ tooManyS ++ (List.replicate (k - 7) 'S' ++ rest) := by
+            rw [e1, hsplit]; simp [List.append_assoc]
+          rw [e]
+          exact isInfix_of_decomp tooManyS pre _
+        rw [h7] at this; cases this
+    have hmem := altLens_text a _ k hka h6
+    rw [← e3] at hmem
+    exact alternatives_match_only_table_keys a ha t hmem
+  · right; exact hb
+
 /-! ### Round 5: what is rejected; bracket escapes -/
 
 theorem fast_path_ok (dt : Dt) : ∃ s, formatDt fastPathSpec dt = .ok (.text s) := by
@@ -595,5 +736,21 @@ example :
         ("H Z!UTC".toList, d2), ("H Z".toList, d1), ("%H".toList, d1)]
       = [.ok (.text "1 +02:00".toList), .ok (.text "13 -01:00".toList), .error .valueError,
          .ok (.text "14 +00:00".toList), .ok (.text "1 +02:00".toList), .ok (.strftime false "%H".toList)] := by decide
+
+/-- non-vacuity of `rejected_iff_seven_S` (both sides inhabited) and of `scan_tok_shape` (a table key, a bracket match
+and literal text in one scan) -/
+example :
+    (effectiveBody "HH SSSSSSS!UTC".toList = "HH SSSSSSS".toList ∧ '%' ∉ effectiveBody "HH SSSSSSS!UTC".toList ∧
+      isInfix tooManyS (effectiveBody "HH SSSSSSS!UTC".toList) = true) ∧
+    isInfix tooManyS (effectiveBody "HH SSSSSS".toList) = false ∧
+    scan "[HH] DD[".toList = [.tok "[HH]".toList, .text [' '], .tok "DD".toList, .text ['[']] := by decide
+
+/-- non-vacuity of `default_format_correct` / `default_format_utc_correct`: the written-out text at a concrete instant -/
+example :
+    let dt : Dt := { year := 2024, month := 2, day := 29, hour := 1, minute := 30, second := 5, microsecond := 7999,
+                     offsetUs := 19800000000, tzname := ['X'] }
+    (0 ≤ dt.offsetUs ∨ dt.offsetUs % 60000000 = 0) ∧
+    defaultSpecText dt = "2024-02-29 01:30:05.007 +05:30".toList ∧
+    defaultSpecText (toUtc dt) = "2024-02-28 20:00:05.007 +00:00".toList := by decide
 
 end C11
